@@ -72,6 +72,8 @@ class Scheduler(object):
             self.p = policy.get('p', 0.5)
         elif name == 'sync':
             # align two threads on the same phase, then interleave them finely inside it
+            self.sync_all = bool(policy.get('all'))       # re-align at EVERY phase entry (lockstep by phase)
+            self.sync_count = [0] * nthreads              # phase entries per thread
             self.sync_k = policy.get('k', 3)             # leader parks when it enters its k-th phase
             self.sync_q = policy.get('q', 1.0)           # switch probability per step during the burst
             self.sync_burst = policy.get('burst', 4000)  # steps of fine interleaving
@@ -230,6 +232,21 @@ class Scheduler(object):
                 self.switch(tid, others[self.rng.randrange(len(others))])
 
     def sync_boundary(self, tid, entering):
+        if self.sync_all:
+            # lockstep by phase: a thread entering its n-th phase waits for its partner to get there too; inside
+            # the phase sync_step() interleaves the two step by step.  Covers every same-phase overlap in one run.
+            if entering:
+                self.sync_count[tid] += 1
+                if self.sync_pair is None:
+                    others = self.runnable_others(tid)
+                    if not others:
+                        return
+                    self.sync_pair = (tid, others[self.rng.randrange(len(others))])
+                if tid in self.sync_pair:
+                    other = self.sync_pair[0] if tid == self.sync_pair[1] else self.sync_pair[1]
+                    if not self.done[other] and self.sync_count[other] < self.sync_count[tid]:
+                        self.switch(tid, other)
+            return
         st = self.sync_stage
         if st == 0 and entering:
             self.sync_entries += 1
@@ -251,6 +268,13 @@ class Scheduler(object):
             self.sync_stage = 3
 
     def sync_step(self, tid):
+        if self.sync_all:
+            if self.sync_pair is not None and tid in self.sync_pair and self.rng.random() < self.sync_q:
+                other = self.sync_pair[0] if tid == self.sync_pair[1] else self.sync_pair[1]
+                # only while the partner is in the same phase number (otherwise it is waiting behind a boundary)
+                if not self.done[other] and self.sync_count[other] == self.sync_count[tid]:
+                    self.switch(tid, other)
+            return
         st = self.sync_stage
         if st == 2:
             self.sync_left -= 1
